@@ -12,8 +12,8 @@
      (i)  a render's accesses to locations shared between goroutines are reads
           only: [C09_render_no_shared_writes], [C09_render_trace] -- about the
           renderer model Model/Interp.v (the tree AFTER the repair of ledger
-          I5, notes/pending/C09-directive-list-local.diff: on the pinned tree
-          evalPrint appends the obligatory directives to the shared
+          I5, /repo commit 25f4246, notes/applied/C09-directive-list-local.diff: on the pinned tree
+          evalPrint appended the obligatory directives to the shared
           PrintNode.Directives, a write to the registry by every render,
           which the immutable [cfg] of the model cannot express and which
           [C09_pinned_directive_append_races] shows the theory would flag);
